@@ -31,7 +31,7 @@ LEVEL_TEXT = (
     "Exploration: generated route tables (plain, variable, regex, static prefixes, nested and domain sub-apps) are registered "
     "in every order (<=4 resources; sampled beyond) in a real frozen Application and resolved for generated request targets "
     "(parsed by the real request parser) x methods x Host values; an independent linear reference decides handler, match_info, "
-    "404/405 and the allowed set per resolve. For tables of <=3 resources over a 4-symbol alphabet all orders x all paths of "
+    "404/405 and the allowed set per resolve. For tables of <=3 resources over a 5-symbol alphabet all orders x all paths of "
     "depth <=3 are enumerated. Says: held on these tables/targets; nothing about unexplored templates or regexes."
 )
 RULE = (
@@ -87,7 +87,7 @@ DOMAINS = ["a.com", "*.a.com", "*", "b.org", "*.com"]
 def shards(tier, seed):
     q = tier == "quick"
     plan = [
-        ("exh", 4 if q else 16, 65 if q else 300),
+        ("exh", 4 if q else 16, 36 if q else 170),
         ("main", 5 if q else 20, 85 if q else 400),
         ("quote", 2 if q else 6, 220 if q else 1000),
         ("nest", 1 if q else 4, 120 if q else 500),
@@ -164,13 +164,13 @@ def gen_router(rng, n, lits, varsegs, depth=0, feat=(), plits=None):
     out = []
     for _ in range(n):
         q = rng.random()
-        if "sub" in feat and depth < 2 and q < 0.16:
+        if "sub" in feat and depth < 2 and q < 0.28:
             inner_feat = tuple(f for f in feat if f != "dom" or "domsub" in feat)
             out.append({"k": "sub", "p": gen_prefix(rng, plits), "rs": gen_router(rng, rng.randint(1, 3), lits, varsegs, depth + 1, inner_feat, plits)})
-        elif "dom" in feat and depth < 2 and q < 0.24:
+        elif "dom" in feat and depth < 2 and 0.28 <= q < 0.42:
             inner_feat = tuple(f for f in feat if f != "dom")
             out.append({"k": "dom", "d": rng.choice(DOMAINS), "rs": gen_router(rng, rng.randint(1, 3), lits, varsegs, depth + 1, inner_feat, plits)})
-        elif "st" in feat and q < 0.32:
+        elif "st" in feat and 0.42 <= q < 0.56:
             out.append({"k": "st", "p": gen_prefix(rng, plits) if rng.random() < 0.9 else "/"})
         else:
             out.append({"k": "r", "t": gen_template(rng, lits, varsegs), "m": list(rng.choice(METHOD_SETS))})
@@ -265,7 +265,7 @@ SEGS = [
     "a", "b", "c", "1", "12", "ab", "ba", "a.b", "a.txt", "1.txt", "a%2Fb", "a%2fb", "%61", "%25", "%2525", "a%20b", "a+b",
     "%C3%BC", "ü", "a;b", "", "", ".", "..", "%2e%2e", "a-b", "a-1", "x:y", "a%7Cb", "%7Bx%7D", "a1", "b1", "a%", "%zz",
 ]
-SEGS_SMALL = ["a", "b", "1", ""]
+SEGS_SMALL = ["a", "b", "1", "ab", ""]
 VALS = ["a", "b", "1", "12", "ab", "a.b", "a.txt", "a%2Fb", "%61", "a%20b", "%C3%BC", "a+b", "a;b", "a-b", "%25", "x", "", "a/b", "..", ".", "1/", "a/", "7", "b1"]
 
 
@@ -469,6 +469,33 @@ def where_raised(e: BaseException) -> str:
     return f"{type(e).__name__}@{f.name}" if f else f"{type(e).__name__}@harness"
 
 
+def strip_dom_in_sub(spec, inside_sub=False):
+    out = []
+    for s in spec:
+        if s["k"] == "dom":
+            if inside_sub:
+                continue
+            out.append(dict(s, rs=strip_dom_in_sub(s["rs"], inside_sub)))
+        elif s["k"] == "sub":
+            out.append(dict(s, rs=strip_dom_in_sub(s["rs"], True)))
+        else:
+            out.append(s)
+    return out
+
+
+def build_mechanism(spec, W, e) -> str:
+    """A registration failure is attributed to 'domain sub-app inside a prefixed sub-app' only when the same table
+    without those domain sub-apps registers cleanly; anything else keeps the bare exception/frame reading."""
+    stripped = strip_dom_in_sub(spec)
+    if stripped != spec:
+        try:
+            build_app(stripped, W)
+            return f"build:domain-subapp-inside-prefixed-subapp:{where_raised(e)}"
+        except Exception:
+            pass
+    return f"build:{where_raised(e)}"
+
+
 async def observe(B: Built, req):
     """-> (key, description) in the reference's outcome vocabulary"""
     mi = await B.app.router.resolve(req)
@@ -595,6 +622,17 @@ class Judge:
                 if r is not None and r.key() != pk:
                     names.append(nm)
             rec.count("grey:" + ("+".join(names) if names else "combination"))
+        # case-level strata: a case belongs to the trigger stratum of a named deviation iff switching that deviation
+        # on changes the reference outcome; in all other (main-stratum) cases no switch can explain a difference
+        in_trigger = False
+        for sw in self.switches:
+            if len(sw) == 1:
+                o = RR.Opts(**{sw[0]: True})
+                if RR.lookup(self.R, method, ps, host, o).key() != prim.key():
+                    rec.count("stratum:trigger:" + SWITCH_MECH[sw[0]])
+                    in_trigger = True
+        if not in_trigger:
+            rec.count("stratum:main")
         if real_key in keys:
             rec.count(f"agree:{real_key[0]}")
             if keys[real_key] != (True, True, True) and real_key != prim.key():
@@ -629,7 +667,7 @@ async def run_table(W: World, rec, stratum, spec, targets, all_methods=False, sa
     except Exception as e:
         rec.case(("build", spec), True)
         rec.count("build-raised")
-        rec.violation(f"build:{where_raised(e)}", f"[{stratum}] registering the table raised {e!r}", {"stratum": stratum, "op": "build", "table": spec})
+        rec.violation(build_mechanism(spec, W, e), f"[{stratum}] registering the table raised {e!r}; table={spec}", {"stratum": stratum, "op": "build", "table": spec})
         return
     R = RR.compile_router(spec)
     feats = table_features(spec)
@@ -773,7 +811,8 @@ async def run_urlfor(W: World, rec, spec, rid, params_list, stratum="urlfor"):
             if all(p[2] is None for p in RR.parse_template(spec_of(spec, rid)["t"]) if p[0] == "var"):
                 raise AssertionError(f"reference cannot invert default-regex template {spec} {params} -> {target} -> {ref.as_dict()}")
         if not mine:
-            rec.count("urlfor:shadowed-by-other-resource")
+            if not single:
+                rec.count("urlfor:shadowed-by-other-resource")
             continue
         if ref.mi != params:
             rec.count("urlfor:not-invertible-by-template")
@@ -813,12 +852,6 @@ def spec_of(spec, rid):
         s = cur[i]
         cur = s.get("rs", [])
     return s
-
-
-def value_for(rng, rx):
-    if rx is None or rx in ("[^/]+", ".+", "[^{}/]+"):
-        return gen_value(rng)
-    return gen_value(rng)
 
 
 # --------------------------------------------------------------------------------------------------
@@ -958,7 +991,7 @@ def run_shard(spec, rec):
         if kind == "exh":
             paths = all_small_paths()
             rec.set_exhaustive("registration-orders(<=4 top-level resources)", True)
-            rec.set_exhaustive("paths depth<=3 over {a,b,1,empty} x methods {GET,POST,PUT,HEAD,DELETE,PROPFIND}", True)
+            rec.set_exhaustive("paths depth<=3 over {a,b,1,ab,empty} x methods {GET,POST,PUT,HEAD,DELETE,PROPFIND}", True)
             for i in range(spec["n"]):
                 n = rng.choice([1, 2, 2, 3, 3, 3, 4]) if i % 5 else 4
                 feat = rng.choice([(), (), ("sub",), ("st",), ("sub", "st"), ("dom",)])
@@ -1037,7 +1070,7 @@ def replay(witness, rec):
                 try:
                     B = build_app(spec, W)
                 except Exception as e:
-                    rec.violation(f"build:{where_raised(e)}", f"registering the table raised {e!r}", witness)
+                    rec.violation(build_mechanism(spec, W, e), f"registering the table raised {e!r}", witness)
                     return
                 if not targets:
                     return
